@@ -504,6 +504,34 @@ def listdiscipline(ck):
             ck.ob("C01-O7", sitestr(pf), ok, "pipeline() returns the child" if ok else "pipeline() returns %s" % [describe(r.get("e")) for r in rs], key="SimplePipeline::pipeline|returns")
         else:
             ck.ob("C01-O7", sitestr(pf), None, "child pipeline is not bound to a local; idiom not recognised")
+    # ---- O8: the fluent builder adds at the end
+    ck.rule("C01-O8", "insertion order = evaluation order: every SimplePipeline builder method adds its handler through Pipeline::append (end of the list), never through a typed / positional insert")
+    mutators = set()
+    for f_, n_, how_ in field_writes(F, P + "::m_handlers"):
+        mutators.add(f_.id)
+    changed = True
+    while changed:
+        changed = False
+        for f_ in F.fns.values():
+            if f_.id in mutators or f_.cls not in (P, "QtLogger::SortedPipeline"):
+                continue
+            if any(n_.get("k") == "call" and n_.get("fn") in mutators for n_ in f_.all_nodes()) or \
+               any(is_call(n_, P + "::handlers") and not (F.fns.get(n_.get("fn")) and F.fns[n_["fn"]].d.get("constm")) for n_ in f_.all_nodes()):
+                mutators.add(f_.id)
+                changed = True
+    n_builders = 0
+    for f_ in sorted((x for x in F.fns.values() if x.cls == SP and x.body is not None and x.d.get("kind") == "method"), key=lambda x: x.sig):
+        adds = [n_ for n_ in f_.calls() if n_.get("fn") in mutators and skip_copies(n_.get("obj") or {"k": "this"}).get("k") in ("this", None)]
+        if not adds:
+            continue
+        ck.touch(f_)
+        n_builders += 1
+        short = f_.name.split("::")[-1]
+        bad_ = [n_ for n_ in adds if not name_is(n_.get("callee"), (P + "::append", P + "::operator<<")) and not (short == "pipeline" and name_is(n_.get("callee"), "QtLogger::SortedPipeline::appendPipeline"))]
+        ck.ob("C01-O8", sitestr(f_, (bad_ or adds)[0]), not bad_, "%s() appends at the end" % short if not bad_ else
+              "%s() adds its handler with %s: it lands in front of handlers added earlier, so `.filter(...).%s(...)` evaluates the new handler before the filter" %
+              (short, (bad_[0].get("callee") or "").split("::")[-1], short), key="SimplePipeline::%s|not-at-end" % short)
+    ck.require(n_builders >= 22, "only %d SimplePipeline builder methods that add a handler were found (25 in this configuration confirmed by hand)" % n_builders)
     # constructor chain scoped -> m_scoped, parent -> m_parent
     for cls, base in ((SP, "QtLogger::SortedPipeline"), ("QtLogger::SortedPipeline", P)):
         ctors = [f for f in F.fn_all(cls + "::" + cls.split("::")[-1]) if f.d.get("kind") == "ctor" and not f.d.get("copyctor") and not f.d.get("movector") and f.params]
